@@ -627,6 +627,9 @@ def run(tier, seed):
     res.trusted = ["CPython on proxies", "z3 (LIA/LRA + quantifiers, strings for the solver name)", "library stubs in vf/sym/lib.py"]
     agg = Agg(res, "C15")
     deductive(res, agg)
+    # models that wrap an inner EOF (ExtendedEOF, OPA, bootstrap members) must hand solver, seed and pass-through options on
+    from props.C07 import deductive_inner_models
+    deductive_inner_models(res, agg)
     agg.flush()
     run_bounded(res, tier, seed)
     return res
